@@ -2,7 +2,7 @@
    "model"), encodes the result canonically. *)
 From Coq Require Import ZArith List String Bool.
 Import ListNotations.
-From TD Require Import Lib.Sexp Spec.C02_TorchShape.
+From TD Require Import Lib.Sexp Spec.C02_TorchShape Model.C02_ShapeOps.
 Open Scope string_scope.
 
 Definition dec_zs := dec_list dec_Z.
@@ -68,8 +68,112 @@ Definition spec_dispatch (op : string) (args : list sexp) : option sexp :=
   | _, _ => None
   end.
 
+(* ---- trees *)
+Definition dec_name (s : sexp) : option (option string) :=
+  match s with
+  | SA "none" => Some None
+  | SL [SA "some"; SA a] => Some (Some a)
+  | _ => None
+  end.
+Definition dec_names (s : sexp) : option dimnames :=
+  match s with
+  | SA "none" => Some None
+  | SL [SA "some"; l] => option_map Some (dec_list dec_name l)
+  | _ => None
+  end.
+
+Fixpoint dec_tree (s : sexp) : option tree :=
+  match s with
+  | SL [SA "leaf"; sh] => option_map Leaf (dec_zs sh)
+  | SL [SA "node"; bs; nm; SL ents] =>
+      match dec_zs bs, dec_names nm,
+            (fix go (l : list sexp) : option (list (string * tree)) :=
+               match l with
+               | [] => Some []
+               | SL [SA k; t] :: r =>
+                   match dec_tree t, go r with Some t', Some r' => Some ((k, t') :: r') | _, _ => None end
+               | _ => None
+               end) ents with
+      | Some bs, Some nm, Some ents => Some (Node bs nm ents)
+      | _, _, _ => None
+      end
+  | _ => None
+  end.
+
+Definition enc_names (nm : dimnames) : sexp :=
+  match nm with
+  | None => SA "none"
+  | Some l => if all_none l then SA "none"
+              else SL [SA "some"; SL (map (fun x => match x with None => SA "none" | Some a => SL [SA "some"; SA a] end) l)]
+  end.
+
+Fixpoint enc_tree (t : tree) : sexp :=
+  match t with
+  | Leaf sh => SL [SA "leaf"; enc_zs sh]
+  | Node bs nm ents =>
+      SL [SA "node"; enc_zs bs; enc_names nm;
+          SL ((fix go (l : list (string * tree)) : list sexp :=
+                 match l with [] => [] | (k, c) :: r => SL [SA k; enc_tree c] :: go r end) ents)]
+  end.
+
+Definition enc_errk (k : errk) : sexp :=
+  SA (match k with EIndex => "IndexError" | EValue => "ValueError" | ERuntime => "RuntimeError" | EType => "TypeError"
+               | EAssert => "AssertionError" | EKey => "KeyError" end).
+
+Definition enc_out {A} (f : A -> sexp) (tag : string) (r : out A) : sexp :=
+  match r with
+  | Done a => SL [SA tag; f a]
+  | Raised k => SL [SA "raise"; enc_errk k]
+  | Diverges => SA "diverges"
+  | Unmodelled => SA "unmodelled"
+  end.
+Definition enc_out_tree := enc_out enc_tree "ok".
+Definition enc_out_trees := enc_out (fun l => SL (map enc_tree l)) "oks".
+
+Definition model_dispatch (op : string) (args : list sexp) : option sexp :=
+  match op, args with
+  | "td-permute", [t; d] =>
+      match dec_tree t, dec_zs d with Some t, Some d => Some (enc_out_tree (apply t (OPermute d))) | _, _ => None end
+  | "td-transpose", [t; a; b] =>
+      match dec_tree t, dec_Z a, dec_Z b with Some t, Some a, Some b => Some (enc_out_tree (apply t (OTranspose a b))) | _, _, _ => None end
+  | "td-squeeze", [t; d] =>
+      match dec_tree t, dec_opt dec_Z d with Some t, Some d => Some (enc_out_tree (apply t (OSqueeze d))) | _, _ => None end
+  | "td-unsqueeze", [t; d] =>
+      match dec_tree t, dec_Z d with Some t, Some d => Some (enc_out_tree (apply t (OUnsqueeze d))) | _, _ => None end
+  | "td-expand", [t; s] =>
+      match dec_tree t, dec_zs s with Some t, Some s => Some (enc_out_tree (apply t (OExpand s))) | _, _ => None end
+  | "td-view", [t; s] =>
+      match dec_tree t, dec_zs s with Some t, Some s => Some (enc_out_tree (apply t (OView s))) | _, _ => None end
+  | "td-reshape", [t; s] =>
+      match dec_tree t, dec_zs s with Some t, Some s => Some (enc_out_tree (apply t (OReshape s))) | _, _ => None end
+  | "td-flatten", [t; a; b] =>
+      match dec_tree t, dec_Z a, dec_Z b with Some t, Some a, Some b => Some (enc_out_tree (apply t (OFlatten a b))) | _, _, _ => None end
+  | "td-unflatten", [t; d; z] =>
+      match dec_tree t, dec_Z d, dec_zs z with Some t, Some d, Some z => Some (enc_out_tree (apply t (OUnflatten d z))) | _, _, _ => None end
+  | "td-repeat", [t; r] =>
+      match dec_tree t, dec_zs r with Some t, Some r => Some (enc_out_tree (apply t (ORepeat r))) | _, _ => None end
+  | "td-repeat-interleave", [t; r; d] =>
+      match dec_tree t, dec_Z r, dec_opt dec_Z d with
+      | Some t, Some r, Some d => Some (enc_out_tree (td_repeat_interleave t r d)) | _, _, _ => None end
+  | "td-unbind", [t; d] =>
+      match dec_tree t, dec_Z d with Some t, Some d => Some (enc_out_trees (td_unbind t d)) | _, _ => None end
+  | "td-split", [t; k; d] =>
+      match dec_tree t, dec_split k, dec_Z d with
+      | Some t, Some k, Some d => Some (enc_out_trees (td_split t k d)) | _, _, _ => None end
+  | "td-chunk", [t; c; d] =>
+      match dec_tree t, dec_Z c, dec_Z d with Some t, Some c, Some d => Some (enc_out_trees (td_chunk t c d)) | _, _, _ => None end
+  | "td-gather", [t; d; i] =>
+      match dec_tree t, dec_Z d, dec_zs i with Some t, Some d, Some i => Some (enc_out_tree (gather_at t d i)) | _, _, _ => None end
+  | "td-stack", [l; d; SA "none"] =>
+      match dec_list dec_tree l, dec_Z d with Some l, Some d => Some (enc_out_tree (td_stack l d)) | _, _ => None end
+  | "td-cat", [l; d; SA "none"] =>
+      match dec_list dec_tree l, dec_Z d with Some l, Some d => Some (enc_out_tree (td_cat l d)) | _, _ => None end
+  | _, _ => None
+  end.
+
 Definition dispatch (cmd : string) (args : list sexp) : option sexp :=
   match cmd, args with
   | "spec", SA op :: rest => spec_dispatch op rest
+  | "model", SA op :: rest => model_dispatch op rest
   | _, _ => None
   end.
